@@ -183,6 +183,9 @@ func HarnessC09Siblings() {
 		{owner: "C05", what: "minimum", mkA: intMin(1), mkB: intMin(5)},
 		{owner: "C04", what: "required", mkA: plain, mkB: plain, reqA: true, reqB: false},
 		{owner: "C08", what: "enum", mkA: enum("a", "b"), mkB: enum("a", "c")},
+		{owner: "C02", what: "format", mkA: func() (*schemas.Type, *zzSpec) {
+			return &schemas.Type{Type: schemas.TypeList{"string"}, Format: "date-time"}, &zzSpec{kind: "string", format: "date-time"}
+		}, mkB: str(0)},
 	}
 	vk := vs[zzvrt.Choice(len(vs))]
 	ta, sa := vk.mkA()
@@ -263,6 +266,10 @@ func HarnessC09Siblings() {
 	fa := zzMember(d, "p/v", sa, vk.reqA, n)
 	fb := zzMember(d, "q/v", sb, vk.reqB, n)
 	f := fa.and(fb)
+	if vk.what == "format" {
+		// the library-typed position makes no promise about which strings parse: keep it absent
+		zzvrt.Assume(zzvrt.DIs(d, "p/v", zzvrt.KAbsent))
+	}
 	zzvrt.Assume(zzvrt.Not(f.dontCare))
 	zzvrt.Assume(zzvrt.Iff(f.str, f.strBytes)) // outside the byte/rune length finding
 	_, accepted, ok := zzRunT(vk.owner+".siblings", h, g.getRootTypeName(sch, "root.json"), "json", d)
